@@ -33,7 +33,7 @@ def build_groups(ctx: Ctx):
     # (a) exhaustive: singles and ordered pairs of the universe
     pairs = [(a,) for a in range(len(U))] + list(itertools.permutations(range(len(U)), 2))
     if q:
-        keep = set(rng.sample(range(len(pairs)), 260))
+        keep = set(rng.sample(range(len(pairs)), 200))
         pairs = [p for i, p in enumerate(pairs) if i in keep or len(p) == 1]
     for idxs in pairs:
         rules = [U[i] for i in idxs]
@@ -43,7 +43,7 @@ def build_groups(ctx: Ctx):
             cases += [(p, rng.choice(rt.METHODS), rt.NOQ) for p in paths[:10]]
             groups.append((rt.make_cfg(rules, s, m), True, cases))
     # (b) random maps of 1..6 rules, several insertion orders
-    for _ in range(120 if q else 2500):
+    for _ in range(90 if q else 2500):
         k = rng.randint(1, 6)
         rules = rt.random_rules(rng, k)
         paths = rt.paths_for(rules, rng, 30 if q else 70)
@@ -97,13 +97,54 @@ def judge_groups(ctx: Ctx, groups, clauses=CLAUSES, kind="c03"):
     return lines
 
 
+def model_groups(ctx: Ctx):
+    """spec -> code: the cases of the exported TLC model, replayed on real Map objects."""
+    U = rt.model_universe()
+    cases = [v for v in ctx.export(AREA, "MCRouting", "MCX_cases", count_states=False) if isinstance(v, dict) and "idx" in v]
+    by = {}
+    for v in cases:
+        by.setdefault((tuple(v["idx"]), v["strict"], v["merge"]), []).append(("".join(map(chr, v["path"])), v["meth"], rt.NOQ))
+    ctx.notes["model_cases_replayed"] = len(cases)
+    return [(rt.make_cfg([U[i - 1] for i in idx], s, m), True, cs) for (idx, s, m), cs in sorted(by.items())]
+
+
+def check_universe_file():
+    import os
+    from ..tlc import SPEC_ROOT, MachineryError
+    cur = open(os.path.join(SPEC_ROOT, AREA, "MCRoutingU.tla")).read()
+    if cur != rt.universe_tla():
+        raise MachineryError("spec/routing/MCRoutingU.tla is not the universe of harness/routing.py (regenerate it)")
+
+
 def run(ctx: Ctx):
+    from .. import tlc
+    check_universe_file()
+    q = ctx.quick
+    ctx.assumptions += [
+        "oracle = Expected (spec/routing/Routing.tla), transcribed from docs/routing.rst, the Rule / Map / converter docstrings, "
+        "CHANGES 2.2.x and the property text; ties the documentation leaves open are accepted either way",
+        "outside the claimed domain (judged ok): tripled slashes, a path-converter value that would start with '/' (or end with "
+        "'//' in a branch rule), a doubled trailing slash under a rule with strict_slashes off, the empty path",
+        "405 is required only when a rule admits the path as it is for another method; bounded model: <= 2 (3) rules of a "
+        "31-rule universe, <= 3 path parts over 5 (10) tokens",
+    ]
+    # 1. model checking: implementation-shaped matcher model against the declarative contract
+    ctx.model_check(AREA, "MCRouting", "MCQ_pairs", timeout=900)
+    if not q:
+        for cfg in ("MCT_pairs", "MCT_triples", "MCT_toks"):
+            ctx.model_check(AREA, "MCRouting", cfg, timeout=3000)
+    # non-vacuity: the model of the matcher as it was before fix F19 violates the same invariant
+    r = tlc.run_tlc(AREA, "MCRouting", "MCQ_orig", workers=ctx.workers, tmp=ctx.tmp, allow_violation=True, timeout=900)
+    ctx.notes["orig_model_violates"] = r.invariant_violated
+    if not r.invariant_violated:
+        raise tlc.MachineryError("pre-fix matcher model no longer violates ImplInExpected: the invariant may be vacuous")
+    ctx.exhaustive = True
     ctx.rule = ("case = (rule map in one insertion order, strict/merge setting, path, method) matched on a real Map and judged by "
                 "TLC against Expected; maps: all singles / ordered pairs of a 32-rule universe, seeded random maps of 1..6 "
                 "related rules in several insertion orders; paths: products of a hit/near-hit/miss token alphabet derived "
                 "from the rules, with trailing / doubled / leading slashes; non-trivial = distinct (map, path, method) "
                 "whose outcome is a match, a redirect or a 405")
-    groups = build_groups(ctx)
+    groups = model_groups(ctx) + build_groups(ctx)
     ctx.notes["maps"] = len(groups)
     judge_groups(ctx, groups)
 
